@@ -207,18 +207,43 @@ def _install_tree(kinds):
                 (dirs if kinds[i] == 2 else files).append(_mkpath(SKELETON[i], kinds[i] == 2))
         return dirs, files
 
-    def walk(top, variables=None):
-        comps = top.split()
-        if comps and (comps not in SKELETON[:NODES] or kinds[SKELETON.index(comps)] != 2):
-            return
-        dirs, files = children(comps)
-        yield top, dirs, files
-        for d in dirs:
-            for x in walk(d, variables):
-                yield x
-    old = bpath.walk
-    bpath.walk = walk
+    def exists(p, variables=None):
+        comps = p.split()
+        return (not comps) or (comps in SKELETON[:NODES] and kinds[SKELETON.index(comps)] == 2)
+
+    def listdir(p, variables=None):
+        return children(p.split())
+
+    def islink(p, variables=None):
+        # LINK: index of the skeleton node that is a *symbolic link to a directory* (-1: none)
+        return LINK >= 0 and p.split() == SKELETON[LINK]
+    # the real path.walk runs on this file system (exists / listdir / islink are its only contact)
+    old = (bpath.exists, bpath.listdir, bpath.islink)
+    bpath.exists, bpath.listdir, bpath.islink = exists, listdir, islink
     return old
+
+
+def _restore_tree(old):
+    bpath.exists, bpath.listdir, bpath.islink = old
+
+
+LINK = param('link', -1)
+# known finding C11-F24: a symbolic link to a directory *below* the directory a walk starts from
+KF_SYMLINK = param('kf_symlink', False)
+
+
+def _link_ok(kinds):
+    """LINK names a directory node; with KF_SYMLINK it must be one of the walk roots (the literal
+    prefix of every pattern is below or at it): only then does the code descend into it"""
+    if LINK < 0:
+        return True
+    if LINK >= NODES or kinds[LINK] != 2:
+        return False
+    if KF_SYMLINK:
+        for b in _bases():
+            if b[:len(SKELETON[LINK])] != SKELETON[LINK]:
+                return False
+    return True
 
 
 def w_walk(kinds: List[int]) -> bool:
@@ -226,7 +251,7 @@ def w_walk(kinds: List[int]) -> bool:
     of the tree (pruning never changes the result; every returned entry exists); a second,
     cached lookup returns the same entries; found + extra entries are handed to the file-type
     constructors with dist=True
-    pre: len(kinds) == NODES and _tree_ok(kinds) and _bases_exist(kinds)
+    pre: len(kinds) == NODES and _tree_ok(kinds) and _bases_exist(kinds) and _link_ok(kinds)
     post: _
     """
     old = _install_tree(kinds)
@@ -239,7 +264,7 @@ def w_walk(kinds: List[int]) -> bool:
         n_made = len(made)
         r2 = bfind.find_from_filter(ctx, f)
     finally:
-        bpath.walk = old
+        _restore_tree(old)
     want = []
     extra = []
     cands = []
